@@ -306,9 +306,14 @@ def main():
 
     # exceptions raised by the harness itself (oracle / generator), per case: tolerated when rare, fatal when systematic
     for name, d in per_rel.items():
-        nerr = sum(d.get('harness_errors', {}).values())
+        he = d.get('harness_errors', {})
+        ntime = sum(v for k, v in he.items() if k.startswith('case exceeded'))
+        if ntime:
+            out_lines.append('NOTE: %s: %d case(s) did not return within the per-case time limit and were abandoned as inconclusive '
+                             '(on the unchanged tree every case takes seconds)' % (name, ntime))
+        nerr = sum(he.values()) - ntime
         if nerr:
-            out_lines.append('NOTE: %s: %d case(s) skipped because the harness itself raised: %s' % (name, nerr, d['harness_errors']))
+            out_lines.append('NOTE: %s: %d case(s) skipped because the harness itself raised: %s' % (name, nerr, {k: v for k, v in he.items() if not k.startswith('case exceeded')}))
             if nerr > max(3, 0.05 * max(d['evaluations'] + nerr, 1)):
                 errors.append('%s: %d harness exceptions (%s); first: %s' % (name, nerr, d['harness_errors'], d.get('harness_examples', [])[:1]))
     violations = []
